@@ -10,7 +10,7 @@ from __future__ import annotations
 
 import loadergen as L
 
-KEYS = ["csv", "df_str", "df_nat", "parquet"]
+KEYS = ["csv", "df_str", "df_nat", "parquet", "pq_nat"]
 
 
 def _problems(den):
@@ -22,7 +22,7 @@ def _problems(den):
 
 
 def run(ctx):
-    n = 100 if ctx.tier == "quick" else 6000      # + directed tables: quick ~310 tables, thorough ~6500
+    n = 60 if ctx.tier == "quick" else 6000       # + directed tables: quick ~365 tables, thorough ~6800
     ctx.cov["rule"] = ("one case = one content table (0-2 identifiers, 1-3 measures/attributes over the 8 types, nullable mixes, 0-5 rows, "
                        "at most one focus cell from a labelled family: every documented format, boundary and invalid values, 0-3 injected "
                        "structural violations) through run() in four forms; expectation from the Coq spec `denote` (docs/data_types.rst); "
